@@ -17,17 +17,28 @@
                      check cand_complete_b.
      cover tree query  CoverTree_Model.v is an executable model of the batch query (descend, shell,
                      copy_zero_set, copy_cover_sets, brute_nearest, the k-vector of upper bounds) run on
-                     the dumped REAL tree.  ct_query_complete_partial: for every metric and every tree
-                     satisfying ct_inv_b, every row the model returns with a true audit flag contains
-                     every sample with fewer than K strictly closer samples; ct_prune_*_sound are the
-                     triangle-inequality lemmas behind each pruning test; covertree_model_exact_partial
-                     composes this with the selection.  PARTIAL: the audit flag (upper_bound[0] is
-                     a valid bound whenever it is read, in the strengthened form copy_* needs) is
-                     evaluated by the extracted model on every run, not proved (on real trees it is
-                     false for about 1 query in 1000: then the theorem makes no claim and only the
-                     run-time check of the real candidate list remains); neither is the construction
-                     of the tree (ct_inv_b is checked on every dumped tree).  ct_query_rows /
-                     ct_query_total: one row per sample, never out of fuel (no hypothesis on d).
+                     the dumped REAL tree; flag oc = false is the current code (after fix F46: the copy sites
+                     prune with TWO query max_dist like descend), oc = true the code before F46.
+                     FULL STRENGTH (wave 2): ct_query_complete - for every metric and every tree satisfying
+                     ct_inv_b whose leaves are pairwise distinct, every row the model returns contains every
+                     sample with fewer than K strictly closer samples; ct_query_rows_shape - every row is a
+                     duplicate-free list of samples; covertree_model_exact - composed with the selection:
+                     every row is exactly a k-nearest set.  They rest on ct_query_audit_true (the audit flag is
+                     ALWAYS true: upper_bound[0] is backed by K distinct samples whenever it is read; proved
+                     from the disjointness of the reference frontier, CoverTree_Proof_Audit.v) and on
+                     ct_prune_*_sound (the triangle-inequality lemmas of the pruning tests).  The *_partial
+                     theorems (relative to the flag) are kept: they are the lemmas the full ones use.
+                     ct_copy_radius_refuted: the OLD copy radius loses a true neighbour on a real tree although
+                     the flag is true (defect F46).
+     cover tree build  CoverTree_Build_Model.v (batch_create, batch_insert, bi_loop, dist_split, redistribute, exact
+                     13/10 arithmetic) is compared node by node with the dumped real tree on every run; ct_build_inv:
+                     for EVERY distance function and input order the built tree satisfies ct_inv_b, holds no sample
+                     twice, and holds every sample when get_scale covered the largest distance; ct_build_leaf100;
+                     covertree_pipeline_exact: construction + query + selection END TO END on the models - for every
+                     metric on 0..N-1 and every k < N the query answers with one row per sample and every row is
+                     exactly a k-nearest set.  What ties these models to the C++ is the differential / structural
+                     run (ct_inv_b / ct_holds_b are still also checked on every dumped real tree).
+                     ct_query_rows / ct_query_total: one row per sample, never out of fuel (no hypothesis on d).
                      ct_scale100_refuted: the model reproduces defect F25 on the tree the old code built.
      *_checked_*     the same theorems with their hypotheses replaced by the boolean
                      checkers the harness runs on what it observes (dumped real VP-tree,
@@ -35,7 +46,7 @@
 From Coq Require Import List ZArith Bool Lia Permutation Sorted.
 From TK Require Import Knn_Spec Knn_Brute_Model Knn_Brute_Proof Knn_VpTree_Model Knn_VpTree_Proof
                        Knn_CoverSel_Model Knn_CoverSel_Proof CoverTree_Model CoverTree_Proof CoverTree_Proof_Total
-                       CoverTree_Refuted CoverTree_Build_Model Knn_CoverQuery_Proof.
+                       CoverTree_Refuted CoverTree_Build_Model Knn_CoverQuery_Proof CoverTree_Proof_Audit CoverTree_Build_Proof Knn_Scale.
 Import ListNotations.
 Local Open Scope Z_scope.
 
@@ -193,6 +204,26 @@ Print Assumptions kernel_comparator.
 Example kernel_comparator_nonvacuous :
   0 <= 1 /\ 0 <= 2 /\ 1 * 1 = 9 - 2 * 12 + 16 /\ 2 * 2 = 9 - 2 * 15 + 25.
 Proof. lia. Qed.
+
+(* scale equivariance (what the kernel_scaled stream exercises at 2^-60 .. 2^60): the kernel comparator, the
+   specification and the metric hypothesis are invariant under a positive rescaling of the callback values *)
+Theorem kernel_comparator_scale : forall c kpa kaa kpb kbb : Z, 0 < c ->
+  (-2 * (c * kpa) + c * kaa < -2 * (c * kpb) + c * kbb <-> -2 * kpa + kaa < -2 * kpb + kbb).
+Proof. exact kernel_comparator_scale_lemma. Qed.
+Print Assumptions kernel_comparator_scale.
+
+Theorem is_knn_scale : forall (c : Z) (d : dist) N q k l, 0 < c ->
+  (is_knn (fun i j => c * d i j) N q k l <-> is_knn d N q k l).
+Proof. exact is_knn_scale_lemma. Qed.
+Print Assumptions is_knn_scale.
+
+Theorem metric_scale : forall (c : Z) dom (d : dist), 0 < c ->
+  metric_on dom d -> metric_on dom (fun i j => c * d i j).
+Proof. exact metric_scale_lemma. Qed.
+Print Assumptions metric_scale.
+
+Example scale_nonvacuous : 0 < 1024 /\ metric_on (in_range 3) line_d.
+Proof. split; [lia | apply metric_b_sound; vm_compute; reflexivity]. Qed.
 
 (* ---------------- cover tree: the selection wrapper ---------------- *)
 
@@ -356,6 +387,61 @@ Proof.
   cbn. tauto.
 Qed.
 
+(* ---------------- cover tree: the batch query at full strength (wave 2) ---------------- *)
+
+(* the audit flag is always true, for the current and for the pre-F46 copy radius: whenever upper_bound[0] is read,
+   at least K samples lie within it of the query node's point *)
+Theorem ct_query_audit_true : forall oc d dom top K fuel rows ok,
+  metric_on dom d -> (forall x, In x (leaf_points top) -> dom x) ->
+  ct_inv_b d top = true -> NoDup (leaf_points top) -> is_leaf top = false ->
+  ct_query oc d K (valid_b d (leaf_points top) K) fuel top = Some (rows, ok) -> ok = true.
+Proof. exact ct_query_audit_true_lemma. Qed.
+Print Assumptions ct_query_audit_true.
+
+Theorem ct_query_complete : forall d dom top K fuel rows ok,
+  metric_on dom d -> (forall x, In x (leaf_points top) -> dom x) ->
+  ct_inv_b d top = true -> NoDup (leaf_points top) -> is_leaf top = false ->
+  ct_query false d K (valid_b d (leaf_points top) K) fuel top = Some (rows, ok) ->
+  forall q cands, In (q, cands) rows ->
+    In q (leaf_points top) /\
+    forall x, In x (leaf_points top) ->
+      (length (filter (fun y => (dd d q y <? dd d q x)%Z) (leaf_points top)) < K)%nat -> In x cands.
+Proof. exact ct_query_complete_lemma. Qed.
+Print Assumptions ct_query_complete.
+
+Theorem ct_query_rows_shape : forall oc d dom top K fuel rows ok,
+  metric_on dom d -> (forall x, In x (leaf_points top) -> dom x) ->
+  ct_inv_b d top = true -> NoDup (leaf_points top) -> is_leaf top = false ->
+  ct_query oc d K (valid_b d (leaf_points top) K) fuel top = Some (rows, ok) ->
+  forall q cands, In (q, cands) rows -> NoDup cands /\ incl cands (leaf_points top).
+Proof. exact ct_query_rows_shape_lemma. Qed.
+Print Assumptions ct_query_rows_shape.
+
+(* model of the whole cover-tree method (query with the repaired radius + repaired selection): every row is exactly
+   a set of k nearest other samples, on every tree that passes the two checkers run on the dumped real tree *)
+Theorem covertree_model_exact : forall d N top k fuel rows ok q cands,
+  metric_on (in_range N) d -> (k < N)%nat ->
+  ct_inv_b d top = true -> ct_holds_b N top = true -> is_leaf top = false ->
+  ct_query false d (S k) (valid_b d (leaf_points top) (S k)) fuel top = Some (rows, ok) ->
+  In (q, cands) rows ->
+  exists l, ct_select_fixed d (q :: cands) k = Some l /\ is_knn d N q k l.
+Proof. exact covertree_model_exact_lemma. Qed.
+Print Assumptions covertree_model_exact.
+
+Example ct_query_full_nonvacuous :
+  metric_on (in_range 9) grid9_d /\ (forall x, In x (leaf_points grid9_ctree) -> in_range 9 x) /\ (3 < 9)%nat /\
+  ct_inv_b grid9_d grid9_ctree = true /\ ct_holds_b 9 grid9_ctree = true /\ NoDup (leaf_points grid9_ctree) /\
+  is_leaf grid9_ctree = false /\
+  exists rows ok, ct_query false grid9_d 4 (valid_b grid9_d (leaf_points grid9_ctree) 4) (ct_fuel grid9_ctree) grid9_ctree
+                  = Some (rows, ok) /\ In (0, [6; 4; 2; 0; 3; 1]) rows.
+Proof.
+  split; [apply metric_b_sound; vm_compute; reflexivity|].
+  split; [intros x Hx; unfold in_range; cbn in Hx; cbn; lia|]. split; [lia|].
+  split; [vm_compute; reflexivity|]. split; [vm_compute; reflexivity|].
+  split; [apply nodup_b_spec; vm_compute; reflexivity|]. split; [reflexivity|].
+  eexists. eexists. split; [vm_compute; reflexivity|]. cbn. tauto.
+Qed.
+
 (* the model query answers for every sample exactly once, whatever the distance function and the audit *)
 Theorem ct_query_rows : forall oc d K au fuel top rows ok,
   ct_query oc d K au fuel top = Some (rows, ok) -> Permutation (map fst rows) (leaf_points top).
@@ -401,11 +487,55 @@ Theorem ct_copy_radius_refuted :
 Proof. exact ct_copy_radius_refuted_lemma. Qed.
 Print Assumptions ct_copy_radius_refuted.
 
-(* CoverTree_Build_Model.v models batch_create / batch_insert / split / dist_split with exact 13/10 arithmetic.
-   Nothing general is proved about it; it is compared node by node with the real tree on every run.  Two recorded
-   real trees (dumped by the harness) as an executable sanity check of that model: *)
+(* ---------------- cover tree: the construction (wave 2) ---------------- *)
+
+(* CoverTree_Build_Model.v models batch_create / batch_insert (loop bi_loop) / split / dist_split / max_set / get_scale
+   with exact 13/10 arithmetic; it is compared node by node with the real tree on every run.  For EVERY distance
+   function (nothing about d is used), every input order and every behaviour of get_scale the tree it builds satisfies
+   ct_inv_b (I1 max_dist bounds every leaf below, I2 parent_dist, I3 first child repeats the point, I4 inner children
+   have a larger scale), no sample occurs twice, and every sample is a leaf when get_scale covered the largest distance *)
+Theorem ct_build_inv : forall d fuel p0 rest t,
+  batch_create d fuel (p0 :: rest) = Some t ->
+  ct_inv_b d t = true /\ c_p t = p0 /\
+  (NoDup (p0 :: rest) -> NoDup (leaf_points t)) /\
+  (scale_found d p0 rest -> Permutation (leaf_points t) (p0 :: rest)).
+Proof. exact batch_create_inv_lemma. Qed.
+Print Assumptions ct_build_inv.
+
+Theorem ct_build_leaf100 : forall d fuel points t, batch_create d fuel points = Some t -> leaf100_b t = true.
+Proof. exact batch_create_leaf100_lemma. Qed.
+Print Assumptions ct_build_leaf100.
+
+Theorem ct_build_checked : forall d N fuel t,
+  (2 <= N)%nat -> batch_create d fuel (samples N) = Some t -> scale_found d 0 (zseq 1 (N - 1)) ->
+  ct_inv_b d t = true /\ ct_holds_b N t = true /\ is_leaf t = false.
+Proof. exact batch_create_checked_lemma. Qed.
+Print Assumptions ct_build_checked.
+
+(* END TO END on the models of the cover-tree method as committed (construction, batch query with the F46 radius,
+   F2 selection): for every metric on the samples 0..N-1, every k < N, the query answers with exactly one row per
+   sample and every row is exactly a set of k nearest other samples *)
+Theorem covertree_pipeline_exact : forall d N k fuel t,
+  metric_on (in_range N) d -> (k < N)%nat -> (2 <= N)%nat ->
+  batch_create d fuel (samples N) = Some t -> scale_found d 0 (zseq 1 (N - 1)) ->
+  exists rows ok,
+    ct_query false d (S k) (valid_b d (leaf_points t) (S k)) (ct_fuel t) t = Some (rows, ok) /\
+    Permutation (map fst rows) (samples N) /\
+    forall q cands, In (q, cands) rows ->
+      exists l, ct_select_fixed d (q :: cands) k = Some l /\ is_knn d N q k l.
+Proof. exact covertree_pipeline_total_lemma. Qed.
+Print Assumptions covertree_pipeline_exact.
+
+(* non-vacuity + executable sanity check of the construction model: two recorded real trees (dumped by the harness) *)
 Example ct_build_model_examples :
   batch_create grid9_d 100 (samples 9) = Some grid9_ctree /\
   batch_create f25_d 100 (samples 4) = Some f25_new_tree /\
-  ct_inv_b grid9_d grid9_ctree = true /\ leaf100_b grid9_ctree = true.
-Proof. vm_compute. repeat split; reflexivity. Qed.
+  batch_create f46_d 100 (samples 11) = Some f46_tree /\
+  ct_inv_b grid9_d grid9_ctree = true /\ leaf100_b grid9_ctree = true /\
+  metric_on (in_range 9) grid9_d /\ (3 < 9)%nat /\ (2 <= 9)%nat /\ scale_found grid9_d 0 (zseq 1 (9 - 1)).
+Proof.
+  split; [vm_compute; reflexivity|]. split; [vm_compute; reflexivity|]. split; [vm_compute; reflexivity|].
+  split; [vm_compute; reflexivity|]. split; [vm_compute; reflexivity|].
+  split; [apply metric_b_sound; vm_compute; reflexivity|]. split; [lia|]. split; [lia|].
+  right. vm_compute. reflexivity.
+Qed.
